@@ -32,9 +32,16 @@ func Interface(ifaceVar interface{}, ctx *iface.IContext, method string, imp int
 	// check args len match
 	argLen := reflect.TypeOf(imp).NumIn()
 	funcTabIndex := methodIndexOf(typ, method)
-	maxLen := typ.Method(funcTabIndex).Type.NumIn()
-	if maxLen >= argLen {
+	methodTyp := typ.Method(funcTabIndex).Type
+	maxLen := methodTyp.NumIn()
+	// 代理函数的参数为: 接收体(*IContext) + 接口方法的参数, 多了或者少了都不匹配
+	if argLen != maxLen+1 {
 		cause := erro.NewArgsNotMatchError(imp, argLen, maxLen+1)
+		return erro.NewIllegalParamCError("interface As()", reflect.ValueOf(imp).String(), cause)
+	}
+	// check returns len match
+	if retLen := reflect.TypeOf(imp).NumOut(); retLen != methodTyp.NumOut() {
+		cause := erro.NewReturnsNotMatchError(imp, retLen, methodTyp.NumOut())
 		return erro.NewIllegalParamCError("interface As()", reflect.ValueOf(imp).String(), cause)
 	}
 
